@@ -18,6 +18,9 @@ AXIOM_ALLOWLIST = {
 KERNEL = "Coq 8.16.1 kernel incl. vm_compute (no native_compute); full .vo build, coqchk in the thorough tier"
 HARNESS = "Rust harness (generators, canonical printing of observations) and the case files it writes; differential testing validates the model, it is not the theorem"
 
+HOOK_COMMITS = ["cf22d3e"]
+NOT_APPLICABLE = {}
+
 PROPS = {
     "C14": {
         "gen": ["base64"],
@@ -26,6 +29,10 @@ PROPS = {
         "props_file": "theories/Props/C14.v",
         "props_module": "Props.C14",
         "corr_check": "SNT.Corr.C14Corr.c14_check (model Encoder/Base64.v vs surf_n_term::{encoder::Base64Encoder, decoder::Base64Decoder})",
+        "level_text": "Coq theorems over an executable model of Base64Encoder/Base64Decoder: encoder output = RFC 4648 text for every input and write partition; decoder returns the original bytes for every read schedule and every sequence of destination sizes; non-multiple-of-4 text is an error; no panic / termination for arbitrary bytes. Tables are regenerated from the source each run and the table lemmas re-checked; the model is tied to the code by a differential run.",
+        "level_note": "Trusted: Coq kernel + vm_compute; translate/tables.py; hand-written model validated by the correspondence run; reader contract (0 only at EOF); io errors outside the model. No axioms (Print Assumptions: closed).",
+        "technique": "Coq proof (induction, refinement to a pure group decoder, finite sweeps for bit operations) + regenerated tables + model/implementation correspondence",
+        "design_ref": "DESIGN.md 6.14",
         "n_quick": 2000,
         "n_thorough": 40000,
         "shard": 125,
@@ -39,6 +46,32 @@ PROPS = {
         "assumptions": [
             "the inner reader signals end of input only by returning 0 and otherwise returns between 1 and the requested number of bytes; io errors of the inner reader/writer are outside the model",
             "callers drain the decoder until a read returns 0 or an error",
+        ],
+    },
+    "C08": {
+        "gen": [],
+        "coq_props": ["theories/Props/C08.vo"],
+        "coq_corr": ["theories/Corr/C08Corr.vo"],
+        "props_file": "theories/Props/C08.v",
+        "props_module": "Props.C08",
+        "corr_check": "SNT.Corr.C08Corr.c08_check (model Surface/Bounds.v vs surf_n_term::surface::ViewBounds for 10 integer types x 7 selector forms)",
+        "level_text": "Coq theorem: for every axis length up to i64::MAX, every selector form, every integer type and every bound of that type, the model of view_bounds equals Python slice resolution over unbounded integers (hence 0 <= start < end <= n or absent, and type-independent). Model tied to the code by a differential run over all ten types, seven forms and extreme bounds (plus an exhaustive small sweep).",
+        "level_note": "Trusted: Coq kernel; hand-written model of range_bounds/index_i64/casts validated by correspondence; 64-bit target; n <= i64::MAX. No axioms.",
+        "technique": "Coq proof (case analysis + lia against a Python-slice specification over Z) + model/implementation correspondence",
+        "design_ref": "DESIGN.md 6.8",
+        "n_quick": 3000,
+        "n_thorough": 60000,
+        "shard": 1000,
+        "level": "proof",
+        "trusted_base": [
+            KERNEL,
+            "hand-written model Surface/Bounds.v of ViewBounds::view_bounds / range_bounds / index_i64 (casts and saturating arithmetic explicit), tied to the code by the correspondence run over all ten integer types",
+            "specification py_slice written from the Python data model (PySlice_AdjustIndices, step 1) over unbounded Z",
+            HARNESS,
+        ],
+        "assumptions": [
+            "axis lengths are at most i64::MAX (no Rust allocation is longer; zero-sized-type surfaces beyond that are outside the theorem)",
+            "64-bit target: usize = u64, isize = i64",
         ],
     },
 }
